@@ -81,6 +81,7 @@ macro_rules! dispatch {
             "C19" => $f(&props::c19::C19 $(, $arg)*),
             "C12" => $f(&props::c12::C12 $(, $arg)*),
             "C10" => $f(&props::c10::C10 $(, $arg)*),
+            "C20" => $f(&props::c20::C20 $(, $arg)*),
             other => {
                 eprintln!("unknown property {}", other);
                 3
